@@ -385,6 +385,7 @@ http_req_sec_chk(const uint8_t *http_hdr, size_t hdr_size, uint32_t method_code)
 	const uint8_t *ptm, *hdr_max;
 	size_t cl_count, te_count, tmp;
 	int in_name = 0; /* From field line start to first ':'. Request line: no. */
+	size_t lines_cnt = 0; /* CRLF count. */
 
 	/*
 	 * Security checks:
@@ -422,8 +423,17 @@ http_req_sec_chk(const uint8_t *http_hdr, size_t hdr_size, uint32_t method_code)
 		    '\n' == (*(ptm + 1))) {
 			ptm ++; /* Skip CRLF. */
 			/* Next line: field-name, continuation if starts from SP / HTAB. */
-			in_name = (hdr_max > (ptm + 1) &&
-			    ' ' != (*(ptm + 1)) && '\t' != (*(ptm + 1)));
+			in_name = 0;
+			if (hdr_max > (ptm + 1)) {
+				if (' ' != (*(ptm + 1)) && '\t' != (*(ptm + 1))) {
+					in_name = 1;
+				} else if (0 == lines_cnt) {
+					/* SP / HTAB before first field: it hides the
+					 * field (continuation of request line). */
+					return (1);
+				}
+			}
+			lines_cnt ++;
 			continue;
 		}
 		return (2); /* Control codes. */
@@ -725,10 +735,19 @@ http_hdr_val_get_ex(const uint8_t *http_hdr, size_t hdr_size,
 	http_hdr_end = (http_hdr + hdr_size);
 	for (; NULL != name; name = separator) {
 		name += 2; /* 2 = separator=CRLF skip. */
-		/* ':' - after value name. */
-		val = mem_chr_ptr(name, http_hdr, hdr_size, ':');
-		if (NULL == val)
-			return (ESPIPE);
+		/* ':' - after value name, inside this line: line without ':'
+		 * is not a field and must not hide the next line name. */
+		separator = mem_find_ptr_cstr(name, http_hdr, hdr_size, CRLF);
+		if (NULL == separator) {
+			separator = http_hdr_end;
+		}
+		val = mem_chr_ptr(name, http_hdr,
+		    (size_t)(separator - http_hdr), ':');
+		if (NULL == val) {
+			if (separator == http_hdr_end)
+				return (ESPIPE);
+			continue; /* Next line. */
+		}
 		val ++; /* Move ptr from ':' to first value byte. */
 		/* Search for value end / next field name start,
 		 * skip all LWS = [CRLF] 1*( SP | HT )	*/
